@@ -8,3 +8,8 @@ import NbioVerif.Properties.C04
 #print axioms ConnFull.c04_flush_monotone
 #print axioms ConnFull.c04_progress
 #print axioms ConnFull.c04_event_flushes
+#print axioms ConnFull.invE_run
+#print axioms ConnFull.c04_et_edge
+#print axioms ConnFull.c04_et_report_flushes
+#print axioms ConnFull.c04_et_edge_counterexample_early
+#print axioms ConnFull.c04_drains
